@@ -209,7 +209,10 @@ def hex_from_double(value: float | None, factor: int = 1) -> HexStr4:
         return "7FFF"
     if not isinstance(value, float | int):
         raise ValueError(f"Invalid value: {value}, is not a double (a float/int)")
-    return f"{int(value * factor):04X}"
+    result = round(value * factor)
+    if not 0 <= result < 2**16:
+        raise ValueError(f"Invalid value: {value}, is out of range")
+    return f"{result:04X}"
 
 
 def hex_to_dtm(value: HexStr12 | HexStr14) -> str | None:  # from parsers
@@ -347,7 +350,7 @@ def hex_from_percent(value: float | None, high_res: bool = True) -> HexStr2:
         return "EF"
     if not isinstance(value, float | int) or not 0 <= value <= 1:
         raise ValueError(f"Invalid value: {value}, is not a percentage")
-    result = int(value * (200 if high_res else 100))
+    result = round(value * (200 if high_res else 100))
     return f"{result:02X}"
 
 
